@@ -104,6 +104,10 @@ func (e *Engine) verifyFunc(fi *FuncInfo) (rep *FuncReport) {
 				if vt, ok := v.(VTerm); ok {
 					e.modifiesOK[vt.T.String()] = true
 				}
+			} else if sx, err := parseSpec(n); err == nil {
+				if vt, ok := e.evalSpec(sx, env).(VTerm); ok {
+					e.modifiesOK[vt.T.String()] = true
+				}
 			}
 		}
 	}
